@@ -72,8 +72,12 @@ def rules_case(draw):
             # a rule whose condition can NEVER be evaluated (a bad regular expression is evaluated whatever the transaction): it never applies -
             # not the first time, not the hundredth time the same pattern text is met in the process
             bad = draw(st.sampled_from(lang.BAD_REGEX))
+            empty = ['listcomp', ['name', 'r'], 'r', ['name', 'orders'], ['lit', False]]
             m = draw(st.sampled_from([['not', ['match', 'regex', None, bad]], ['or', [['match', 'regex', None, bad], ['lit', True]]],
-                                      ['cmp', ['call', 'extract', [['str', bad]]], [['==', ['str', '']]]], ['if', ['match', 'regex', None, bad], ['lit', True], ['lit', True]]]))
+                                      ['cmp', ['call', 'extract', [['str', bad]]], [['==', ['str', '']]]], ['if', ['match', 'regex', None, bad], ['lit', True], ['lit', True]],
+                                      # arithmetic on a value that is no number (also when it is empty / falsy) is a type error whatever the transaction
+                                      ['cmp', ['bin', '/', ['name', 'amount'], ['str', '']], [['<', ['num', 20]]]], ['cmp', ['bin', '%', ['name', 'amount'], ['str', '']], [['==', ['num', 0]]]],
+                                      ['cmp', ['bin', '/', ['num', 1], empty], [['>=', ['num', 0]]]]]))
             rs.insert(draw(st.integers(0, len(rs))), {'name': 'Never Evaluable', 'match': m, 'category': draw(st.sampled_from(['', 'NeverCat'])), 'subcategory': '', 'merchant': None,
                                                      'priority': None, 'tags': ['never-evaluable'], 'lets': [], 'fields': []})
             continue
